@@ -394,11 +394,10 @@ class SymBool:
     def __invert__(self) -> Any:
         return ~_as_int(self)
 
-    def __int__(self) -> Any:
-        return _as_int(self)
+    def __int__(self) -> int:
+        return 1 if engine().branch(self.e) else 0      # builtin int() insists on an exact int: fork
 
-    def __index__(self) -> int:
-        return 1 if engine().branch(self.e) else 0
+    __index__ = __int__
 
     def __hash__(self) -> int:
         return hash(bool(self))
@@ -850,3 +849,83 @@ class int_shim(metaclass=IntShim):
 def sym_hex(x: Any) -> str:
     import builtins
     return '0x<sym>' if is_sym(x) else builtins.hex(x)
+
+
+# ====================================================================== byte strings
+
+class SymBytes:
+    """bytes look-alike of concrete length whose items may be symbolic (ints in [0,255])."""
+
+    def __init__(self, items: Any = ()):
+        self.items = list(items)
+
+    @property
+    def __class__(self) -> type:
+        return bytes
+
+    def __len__(self) -> int:
+        return len(self.items)
+
+    def __bool__(self) -> bool:
+        return bool(self.items)
+
+    def __getitem__(self, i: Any) -> Any:
+        if isinstance(i, slice):
+            return SymBytes(self.items[i])
+        if type(i) is SymInt:
+            i = int_of(i)
+        return self.items[i]
+
+    def __iter__(self) -> Any:
+        return iter(self.items)
+
+    def __add__(self, o: Any) -> Any:
+        if type(o) is SymBytes:
+            return SymBytes(self.items + o.items)
+        if type(o) in (bytes, bytearray):
+            return SymBytes(self.items + list(o))
+        return NotImplemented
+
+    def __radd__(self, o: Any) -> Any:
+        if type(o) in (bytes, bytearray):
+            return SymBytes(list(o) + self.items)
+        return NotImplemented
+
+    def __eq__(self, o: Any) -> Any:  # type: ignore[override]
+        other = o.items if type(o) is SymBytes else (list(o) if type(o) in (bytes, bytearray) else None)
+        if other is None or len(other) != len(self.items):
+            return False
+        r: Any = True
+        for a, b in zip(self.items, other):
+            r = (a == b) & r if is_sym(a == b) or is_sym(r) else ((a == b) and r)
+        return r
+
+    def __hash__(self) -> int:
+        return hash(tuple(int_of(x) for x in self.items))
+
+    def decode(self, *a: Any, **k: Any) -> str:
+        return '<symbytes>'
+
+    def __repr__(self) -> str:
+        return f'<symbytes len={len(self.items)}>'
+
+
+def _to_bytes(self: SymInt, length: int = 1, byteorder: str = 'big', *, signed: bool = False) -> Any:
+    E = engine()
+    if signed:
+        raise TypeError('symbolic signed to_bytes not modelled')
+    if self.lo < 0 and E.branch(self.e < 0):
+        raise OverflowError("can't convert negative int to unsigned")
+    if self.hi >= (1 << (8 * length)) and E.branch(self.e >= (1 << (8 * length))):
+        raise OverflowError('int too big to convert')
+    items = [mk(z3.ZeroExt(E.W - 8, z3.Extract(8 * i + 7, 8 * i, self.e)), 0, 255) for i in range(length)]
+    if byteorder == 'big':
+        items.reverse()
+    return SymBytes(items)
+
+
+SymInt.to_bytes = _to_bytes  # type: ignore[attr-defined]
+
+
+def sym_bytes(name: str, n: int) -> SymBytes:
+    return SymBytes([sym_int(f'{name}{i}', 0, 255) for i in range(n)])
